@@ -174,6 +174,9 @@ fn big_size() -> impl Strategy<Value = u32> {
         3 => prop_oneof![Just(1_048_576u32 - 16), Just(1_048_576u32), Just(1_048_577u32), Just(1_048_576u32 + 16)],
         1 => Just(2 * 1_048_576u32),
         1 => Just(4 * 1_048_576u32 + 1),
+        // above the next two powers of four: a reader-side sanity bound on the length field that
+        // the writer does not share hides an intact entry (and everything behind it in its file)
+        1 => prop_oneof![Just(16 * 1_048_576u32), Just(16 * 1_048_576u32 + 1), Just(8 * 1_048_576u32 + 1)],
     ]
 }
 
